@@ -1076,8 +1076,16 @@ func cmdFileLine(f hx.Flags, r *hx.Result) {
 	if err != nil {
 		r.SetInfra("read cases: %v", err)
 	}
-	// the same law swept over every width the property names
-	for w := -5; w <= 200; w++ {
+	// the same law swept over every width the property names, widths ascending and then descending (the result
+	// for a location must not depend on which width formatted it before)
+	for i := 0; i <= 2*206; i++ {
+		w := -5 + i
+		if i > 205 {
+			w = 200 - (i - 206)
+		}
+		if w < -5 {
+			break
+		}
 		for _, n := range []int{2, 3, 4, w - 1, w, w + 1, w + 2, w + 3, w + 4, 300} {
 			if n < 2 {
 				continue
